@@ -505,6 +505,18 @@ def namespace_reader(repo, chk):
         return
     lp = loops[0]
     lv = lp.target.id
+    # a line that cannot be read is skipped and the NEXT lines are still read: the guard (try / except) sits inside the loop.  A loop inside the guarded
+    # block ends at the first unreadable line and drops every later declaration.
+    par_ns = parents(fn.node)
+    cur = par_ns.get(lp)
+    while cur is not None and cur is not fn.node:
+        if isinstance(cur, ast.Try) and any(lp is x for b in cur.body for x in ast.walk(b)) and cur.handlers and \
+                any(h.type is None or ast.unparse(h.type) in ('Exception', 'BaseException', 'ValueError', '(ValueError, IndexError)') for h in cur.handlers) and \
+                not any(isinstance(x, ast.Try) for b in lp.body for x in ast.walk(b)):
+            chk.bad('C16.6g', 'R1', fn.site(cur), f'try: for {lv} in ...: ... except: ...', 'the whole loop over the lines of the namespace file sits inside one try / except: the first blank, comment or malformed line '
+                    'raises out of the loop and every later id -> feature declaration (and float feature) is silently dropped; the guard must be per line')
+            return
+        cur = par_ns.get(cur)
     E = lambda src: expected_term(m, src, {'line': ('role', 'line')})
     roles = {lv: ('role', 'line')}
     paths = run_paths(fn, None, None, max_forks=5, body=lp.body)
